@@ -2,7 +2,7 @@
    Statements only (proofs in Onto/Cmp_proofs.v).  `cmp_node` is the comparison scheme shared by all
    __cmp__ implementations; Onto/Kinds.v instantiates it with the rule table of each element kind, whose
    cosmetic attribute lists are read from the source on every run (Generated/C09_gen.v). *)
-From EdxmlVerif Require Import Base.Prelude Onto.Tree Onto.Kinds Onto.Cmp_proofs Generated.C09_gen.
+From EdxmlVerif Require Import Base.Prelude Onto.Tree Onto.Kinds Onto.Cmp_proofs Onto.Compat Onto.Compat_proofs Onto.Cmp_trans Generated.C09_gen.
 From Coq Require Import String.
 
 (* ---- element kinds without child elements: object types, concepts, sources, concept associations,
@@ -91,3 +91,56 @@ Theorem C09_pinned_attachment_rule_refuted :
   cmp_etype true wa_plus wa_base = Incompat.
 Proof. vm_compute. repeat split; reflexivity. Qed.
 Print Assumptions C09_pinned_attachment_rule_refuted.
+
+(* ---- accepted upgrades compose, for kinds with child elements ---- *)
+(* the scheme: given the corresponding facts about the children of the three definitions *)
+Theorem C09_upgrades_compose : forall {C} (child_attr : C -> str -> aval) childcmp ks (a b c : node C),
+  child_nn_trans childcmp ks a b c -> child_opt_mono child_attr childcmp ks b c ->
+  child_dt_stable child_attr childcmp ks a b -> child_dt_stable child_attr childcmp ks b c ->
+  cmp_node child_attr childcmp ks a b = Older -> cmp_node child_attr childcmp ks b c = Older ->
+  cmp_node child_attr childcmp ks a c = Older.
+Proof. intros C child_attr childcmp ks. exact (cmp_trans child_attr childcmp ks). Qed.
+Print Assumptions C09_upgrades_compose.
+
+(* properties (with their concept associations): unconditionally *)
+Theorem C09_property_upgrades_compose : forall a b c : T1,
+  cmp_prop a b = Older -> cmp_prop b c = Older -> cmp_prop a c = Older.
+Proof. exact prop_upgrades_compose. Qed.
+Print Assumptions C09_property_upgrades_compose.
+
+(* event types (with parent, properties and their associations, relations, attachments).  Premises: sub-elements are
+   versioned by their event type (as in the code), and the derived datetime flag of a property follows its object type *)
+Theorem C09_event_type_upgrades_compose : forall a b c : T2,
+  kids_versioned a -> kids_versioned b -> kids_versioned c ->
+  dt_flag_by_objtype a b -> dt_flag_by_objtype b c ->
+  cmp_etype true a b = Older -> cmp_etype true b c = Older -> cmp_etype true a c = Older.
+Proof. exact etype_upgrades_compose. Qed.
+Print Assumptions C09_event_type_upgrades_compose.
+
+Definition wc_prop (v : Z) (ot : string) (opt : bool) (dn : string) : T1 :=
+  {| n_version := v; n_attrs := [(A "object-type", VStr (s2l ot)); (A "merge", VStr (s2l "any")); (A "multivalued", VBool false);
+                                 (OPTIONAL, VBool opt); (A "description", VStr (s2l dn)); (IS_DATETIME, VBool false)];
+     n_groups := [(s2l "concepts", [])] |}.
+Definition wc_et (v : Z) (ps : list (str * T1)) (dn : string) : T2 :=
+  {| n_version := v; n_attrs := [(A "display-name-singular", VStr (s2l dn))];
+     n_groups := [(s2l "parent", []); (s2l "properties", ps); (s2l "relations", []); (s2l "attachments", [])] |}.
+Definition wc_a := wc_et 1 [(s2l "p", wc_prop 1 "ot" false "d")] "x".
+Definition wc_b := wc_et 2 [(s2l "p", wc_prop 2 "ot" false "d"); (s2l "q", wc_prop 2 "ot" true "d")] "x".
+Definition wc_c := wc_et 3 [(s2l "p", wc_prop 3 "ot" true "e"); (s2l "q", wc_prop 3 "ot" true "d")] "y".
+Example C09_compose_nonvacuous :
+  cmp_etype true wc_a wc_b = Older /\ cmp_etype true wc_b wc_c = Older /\ cmp_etype true wc_a wc_c = Older /\
+  kids_versioned wc_a /\ kids_versioned wc_b /\ kids_versioned wc_c /\ dt_flag_by_objtype wc_a wc_b /\ dt_flag_by_objtype wc_b wc_c.
+Proof.
+  split; [vm_compute; reflexivity|]. split; [vm_compute; reflexivity|]. split; [vm_compute; reflexivity|].
+  assert (forall v ps dn, (forall k x, In (k, x) ps -> n_version x = v) -> kids_versioned (wc_et v ps dn)) as KV.
+  { intros v ps dn H g k x Hg Hin. cbn in Hg. destruct Hg as [<-|[<-|[<-|[<-|[]]]]]; cbn in Hin; try contradiction. apply (H k x Hin). }
+  split; [apply KV; intros k x [H|[]]; injection H as <- <-; reflexivity|].
+  split; [apply KV; intros k x [H|[H|[]]]; injection H as <- <-; reflexivity|].
+  split; [apply KV; intros k x [H|[H|[]]]; injection H as <- <-; reflexivity|].
+  split; intros k x y Hx Hy _; cbn in Hx, Hy;
+    repeat match goal with
+           | H : _ \/ _ |- _ => destruct H as [H|H]
+           | H : (_, _) = (_, _) |- _ => inversion H; subst; clear H
+           | H : False |- _ => contradiction
+           end; reflexivity.
+Qed.
